@@ -770,3 +770,11 @@ func init() {
 	intrinsics["("+pfx+".Store).Iterator"] = mk(true, "Iterator")
 	intrinsics["("+pfx+".Store).ReverseIterator"] = mk(false, "ReverseIterator")
 }
+
+func init() {
+	// Context.BlockHeader returns a proto.Clone of the header: values are immutable here, a copy is the value itself
+	intrinsics["("+sdkTypes+".Context).BlockHeader"] = func(ex *Exec, a []Value, _ *Frame) Value {
+		ctx := a[0].(Struct)
+		return ctx.F[fieldIndex(ex.namedType(sdkTypes, "Context"), "header")]
+	}
+}
